@@ -2,3 +2,4 @@ pub mod ctrlpoints;
 pub mod num;
 pub mod timing;
 pub mod curve_exact;
+pub mod framing;
